@@ -54,6 +54,11 @@ def run(P, rep, tier):
     from . import c02
 
     rep.attempt(c02.r3_typestate, P, rep, ctx)
+    # reopening an uncommitted patch ('r+' / 'a' continue it) relies on _open exempting exactly the newest container from
+    # the hash requirement
+    from . import c04
+
+    rep.attempt(c04.r2_open_coverage, P, rep, ctx)
     rep.floor("C03.R1", 5)
     rep.floor("C03.R2", 25)
     rep.floor("C03.R3", 9)
@@ -354,6 +359,17 @@ def r2_mode_dispatch(P, rep, ctx):
     trunc = cr.tests("truncate")
     dl = cr.calls("__.delete_files(___)")
     rep.check(bool(trunc) and bool(dl) and cr.all_hit_before(dl, edges=trunc), "C03.R2", cr.fi.qual, "an existing record is deleted only when truncation was requested", cr.fi.loc(), construct="truncate guard", message="_create deletes existing files without `truncate`")
+    # mode 'w' replaces the *whole* record: delete_files removes every file find_files reports (the same set _open would load)
+    dfi = P.func(f"{REC}.delete_files")
+    df_ = F(ctx, dfi)
+    rp = dfi.params[1]
+    lps = [n for n in df_.g.nodes if n.kind == "for" and isinstance(n.stmt.target, ast.Name) and M.match(f"cls.find_files({rp})", M.canon_collections(df_.xe(n.stmt.iter))) is not None]
+    okd = False
+    for n in lps:
+        un = df_.calls(f"{n.stmt.target.id}.unlink()", f"{n.stmt.target.id}.unlink(missing_ok=True)", f"os.remove({n.stmt.target.id})", f"os.unlink({n.stmt.target.id})")
+        okd = bool(un) and df_.hit_before(n.idx, nodes=un, src_edge=(n.idx, "iter")) and df_.hit_before(df_.g.exit, nodes=[n.idx])
+    rep.check(okd, "C03.R2", dfi.qual, "delete_files unlinks every container file that find_files reports for the record", dfi.loc(), construct="delete_files covers find_files",
+              message="delete_files does not remove exactly the files find_files(record) reports (e.g. it walks the canonical names and stops at a gap): mode 'w' leaves old patch containers behind, which a later open picks up again")
     nc = F(ctx, P.func(f"{REC}._new_container"))
     mk = [c for _, c, b in nc.call_sites("h5py.File(___)")]
     ok = bool(mk) and all(fold_str(P, nc.fi, arg_or_kw(c, 1, "mode")) in ("x", "r+") for c in mk) and any(fold_str(P, nc.fi, arg_or_kw(c, 1, "mode")) == "x" and norm(c.args[0]) == nc.fi.params[1] and kwarg(c, "userblock_size") is not None and nc.x(kwarg(c, "userblock_size")) == "USER_BLOCK_SIZE" for c in mk)
@@ -467,6 +483,11 @@ def r4_close_discard(P, rep, ctx):
     dl = dp.calls("self._delete_latest_container()")
     ok = bool(dl) and dp.refuses(only_base) and dp.all_hit_before(dl, edges=dp.neg(only_base))
     rep.check(ok, "C03.R4", dp.fi.qual, "discard never removes the base container", dp.fi.loc(), construct="base protected in discard_patch", message="discard_patch can delete the base container")
+    r_delete_latest(P, rep, ctx, "C03.R4")
+
+
+def r_delete_latest(P, rep, ctx, rule):
+    """the container that is unlinked is the very handle popped from the list (not a path recomputed from naming rules)"""
     dc = F(ctx, P.func(f"{REC}._delete_latest_container"))
     pops = dc.call_sites("self.__files__.pop()") + dc.call_sites("self.__files__.pop(-1)")
     closes = dc.calls("self.__files__.pop().close()", "self.__files__.pop(-1).close()")
@@ -474,7 +495,9 @@ def r4_close_discard(P, rep, ctx):
     ubs = dc.deletes("self._ublocks[Path(self.__files__.pop().filename)]") + dc.deletes("self._ublocks[Path(self.__files__.pop(-1).filename)]") + dc.calls("self._ublocks.pop(Path(self.__files__.pop().filename), ___)")
     pop_nodes = [c for c in local_calls(dc.fi.node) if M.match("self.__files__.pop()", c) is not None or M.match("self.__files__.pop(-1)", c) is not None]
     ok = len(pop_nodes) == 1 and bool(closes) and bool(unl) and bool(ubs) and all(dc.hit_before(dc.g.exit, nodes=x) for x in (closes, unl, ubs))
-    rep.check(ok, "C03.R4", dc.fi.qual, "exactly the newest container is closed, forgotten and unlinked", dc.fi.loc(), construct="_delete_latest_container", message="_delete_latest_container does not pop/close/unlink exactly the last container and drop its user block")
+    other_unlinks = [c for c in local_calls(dc.fi.node) if call_attr(c) in ("unlink", "remove", "rmtree", "rename", "replace") and M.match("Path(self.__files__.pop().filename).unlink()", dc.xe(c)) is None and M.match("Path(self.__files__.pop(-1).filename).unlink()", dc.xe(c)) is None]
+    ok = ok and not other_unlinks
+    rep.check(ok, rule, dc.fi.qual, "exactly the newest container is closed, forgotten and unlinked", dc.fi.loc(), construct="_delete_latest_container", message="_delete_latest_container does not pop/close/unlink exactly the last container and drop its user block")
 
 
 # ------------------------------------------------------------------------------------------- R5
